@@ -556,9 +556,44 @@ def s_p14(ctx, T, tx, fee, F, A, label):
             ctx.require(z3.And(fits, eng.to_bv(v, 128) == code), "[%s] the metadata integer is the argument's value" % label, shape="metadata integer differs")
 
 
+def s_p15(ctx, T, tx, fee, F, A, label):
+    """fields of an input's datum used outside datum / amount positions: validity, signers, metadata"""
+    eng = ctx.eng
+    until, tag = sym(ctx, "src.until"), sym(ctx, "src.tag")
+    lov = sym(ctx, "src.lovelace")
+    eng.assume(lov - F >= 0)
+    owner = [0x5A] * 28
+    datum = T.struct(0, [T.bytes(owner), T.num(until), T.num(tag)])
+    args = amap([("alice", A("alice"))])
+    body, aux = finish(ctx, tx, args, amap([("src", utxo(T, 1, lov, datum=datum))]), fee, label)
+    if body is None:
+        return
+    bn = check_outputs(ctx, body, [dict(address=ADDR["alice"], coin=lov - F)], label)
+    g = lambda f: models.deref(body.fields[bn.index(f)])
+    ttl = g("ttl")
+    ctx.require(ttl.variant == "Some", "[%s] ttl present" % label, shape="ttl dropped")
+    if ttl.variant == "Some":
+        ctx.require(z3.ZeroExt(64, eng.to_bv(ttl.fields[0], 64)) == until, "[%s] ttl is the datum's `until` field" % label, shape="ttl differs")
+    rs = g("required_signers")
+    ctx.require(rs.variant == "Some", "[%s] required signers present" % label, shape="signers dropped")
+    if rs.variant == "Some":
+        inner = models.deref(rs.fields[0])
+        while isinstance(inner, Agg):
+            inner = models.deref(inner.fields[0])
+        got = [list(models.deref(models.deref(x).fields[0]).items) for x in inner.items]
+        ctx.require(got == [owner], "[%s] the required signer is the datum's `owner` field" % label, shape="signers differ")
+    mm = metadata_map(aux)
+    ctx.require(mm is not None and set(mm) == {5}, "[%s] metadata label 5 is emitted" % label, shape="metadata differs")
+    if mm and 5 in mm:
+        kind, v = mm[5]
+        ctx.require(kind == "Int" and True, "[%s] the metadata value is an integer" % label, shape="metadata differs")
+        if kind == "Int":
+            ctx.require(eng.to_bv(v, 128) == tag, "[%s] the metadata integer is the datum's `tag` field" % label, shape="metadata integer differs")
+
+
 SPECS = {"p01_int_arith": s_p01, "p02_asset_arith": s_p02, "p03_datum_spread": s_p03, "p04_mint_meta": s_p04,
          "p05_lists_concat": s_p05, "p06_locals_env": s_p06, "p07_time": s_p07, "p08_two_inputs": s_p08,
-         "p09_record_order": s_p09, "p10_negate_parens": s_p10, "p11_policy_contexts": s_p11, "p12_nested_access": s_p12, "p13_concat_mint_net": s_p13, "p14_time_back_meta": s_p14}
+         "p09_record_order": s_p09, "p10_negate_parens": s_p10, "p11_policy_contexts": s_p11, "p12_nested_access": s_p12, "p13_concat_mint_net": s_p13, "p14_time_back_meta": s_p14, "p15_datum_fields_elsewhere": s_p15}
 
 
 def _h(name, fn, bounds, tier="quick", **kw):
